@@ -467,7 +467,7 @@ def plan_common(run, pid, algs, ops, args, narchs=(0, 1), purges=(False,), safes
                 for purge in (purges if (narch and alg not in ('no', 'inf')) else (False,)):
                     for safe in safes:
                         mcs.append(base_constants(ALG=alg, MAXSIZE=ms, PURGE=purge, SAFE=safe, QMULT=qmult_exh,
-                                                  ARGS=set(args) | ({run_unkey(4)} if safe else set()),
+                                                  ARGS=set(args) | ({run_unkey(4), run_unkey(4) + 1} if safe else set()),
                                                   OPS=set(ops), NARCH=narch,
                                                   DEPTH=depth_t if thorough else depth_q, Props={pid}))
     if not thorough and len(mcs) > 12:
@@ -486,7 +486,7 @@ def plan_common(run, pid, algs, ops, args, narchs=(0, 1), purges=(False,), safes
                 for ms in (maxsizes if alg not in ('no', 'inf') else (2,)):
                     purge = run.rng.choice(list(purges)) if narch else False
                     gens.append(base_constants(ALG=alg, MAXSIZE=ms, PURGE=purge, SAFE=safe, QMULT=10,
-                                               ARGS=set(args) | ({run_unkey(4)} if safe else set()),
+                                               ARGS=set(args) | ({run_unkey(4), run_unkey(4) + 1} if safe else set()),
                                                OPS=set(ops), NARCH=narch,
                                                UNKEYAT='lookup' if safe and (len(gens) % 3 == 0) else 'keymap'))
     if nest:
@@ -667,7 +667,7 @@ def scenario_unkeyable(run, nseq, length):
                     ops = []
                     for o in cd.random_ops(rng, length, cfg, 9, 'mixed'):
                         if o['op'] == 'call' and rng.random() < 0.35:
-                            o = {'op': 'call', 'a': 10}
+                            o = {'op': 'call', 'a': 10 if rng.random() < 0.7 else 11}     # 11: unkeyable and the function raises
                         ops.append(o)
                     run.jobs.append((cfg, ops, None))
 
@@ -746,6 +746,13 @@ def scenario_probes(run, kinds, modules=('std', 'safe'), backends=('plain', 'dic
                             ops += [{'op': 'call', 'a': a} for a in keys[:ms + 1]] + [{'op': 'info'}]
                             run.jobs.append((dict(base), ops, None))
                             run.jobs.append((dict(base, purge=True), ops, None))
+                    if 'bulk' in kinds and backend != 'plain' and ms + 3 <= NX:
+                        # more entries than maxsize come in by one load() (no recorded use), then calls with new and old keys
+                        for pg in (False, True):
+                            ops = [{'op': 'call', 'a': a} for a in keys[:ms + 2]] + [{'op': 'dump'}, {'op': 'clear', 'keep': True}, {'op': 'load'}]
+                            ops += [{'op': 'info'}, {'op': 'call', 'a': keys[ms + 2]}, {'op': 'info'}, {'op': 'call', 'a': keys[0]},
+                                    {'op': 'call', 'a': keys[ms + 2]}, {'op': 'call', 'a': keys[1]}, {'op': 'info'}]
+                            run.jobs.append((dict(base, purge=pg), ops, None))
                     if 'purge_off' in kinds and backend != 'plain' and 2 * ms + 2 <= NX:
                         # keys used twice, an overflow that purges to the archive, the archive switched off, more overflows
                         for off in ('arch_off', 'set_null'):
@@ -834,7 +841,7 @@ def check_C05(tier):
     t = tier == 'thorough'
     scenario_spellings(run, 30 if t else 20, reps=6 if t else 1)
     scenario_recursive(run, 1500 if t else 250)
-    scenario_probes(run, {'clear', 'compaction', 'purge_off'}, backends=('plain', 'dictarch', 'file'))
+    scenario_probes(run, {'clear', 'compaction', 'purge_off', 'bulk'}, backends=('plain', 'dictarch', 'file'))
     scenario_random(run, BOUNDED, ['std', 'safe'], ['plain', 'dictarch', 'file', 'dir', 'sql'], 1500 if t else 250,
                     40 if t else 30, maxsizes=(1, 2, 3, 4), nx=6, profile='setarch')
     return run.finish(assumptions=ASSUME)
@@ -860,7 +867,7 @@ def check_C06(tier):
                 longs.append(base_constants(ALG=alg, MAXSIZE=ms, QMULT=10, ARGS={1, 2, 3, 4}, OPS={'call'}, NARCH=narch))
     with ThreadPoolExecutor(max_workers=common.NCPU) as ex:
         list(ex.map(lambda c: run.generate(c, 400 if t else 60, 45 + 12 * c['MAXSIZE']), longs))
-    scenario_probes(run, {'compaction', 'clear'})
+    scenario_probes(run, {'compaction', 'clear', 'bulk'})
     scenario_recursive(run, 1500 if t else 250, algs=BOUNDED, backends=('plain', 'dictarch'))
     return run.finish(assumptions=ASSUME + ['entries that entered memory through a bulk load() have no recorded use; '
                                             'the policy clause is not judged while such entries are resident (C05 covers the bound)'])
@@ -914,6 +921,7 @@ def check_C15(tier):
                     1500 if t else 250, 40 if t else 25)
     scenario_unkeyable(run, 2 if t else 1, 20)
     scenario_recursive(run, 1000 if t else 150, raising=True)
+    scenario_probes(run, {'bulk', 'purge_off', 'clear'}, backends=('dictarch', 'file'))
     return run.finish(assumptions=ASSUME)
 
 
@@ -948,7 +956,8 @@ def check_C18(tier):
         km = rng.choice(KM_STD)
         if not compatible(backend, km, module):
             km = ('str', True, False)
-        cfg = py_cfg(module, alg, rng.choice([1, 2, 3]), backend, km, variant=rng.choice(['plain', 'ignore_y', 'ignore_1', 'tol0', 'tol1']))
+        cfg = py_cfg(module, alg, rng.choice([1, 2, 3]), backend, km, variant=rng.choice(['plain', 'ignore_y', 'ignore_1', 'ignore_w', 'tol0', 'tol1']))
+        cfg['reuse'] = rng.random() < 0.3      # the decorator object is applied to a second function as well
         ops = [{'op': 'wrapped'}]
         for o in cd.random_ops(rng, 30 if t else 22, cfg, 9, 'nobulk'):
             if rng.random() < 0.35:
